@@ -881,7 +881,7 @@ Lemma flattened_equiv v m cross pp inf kw :
     exec (emit v m cross pp inf) (RMsg (request_of m kw)) [] = OSend r2 /\
     req_equiv r1 (request_of m kw) /\
     (r2 = request_of m kw \/
-     (cross = true /\ pp = true /\ entries (request_of m kw) = [] /\ r2 = empty_req)).
+     (cross = true /\ msg_falsy pp (request_of m kw) = true /\ r2 = empty_req)).
 Proof.
   intros ND WF W E C.
   pose proof (covers_spec m ND) as CS.
@@ -893,8 +893,7 @@ Proof.
   - apply (exec_given v m cross pp inf (RMsg (request_of m kw)) [] ND WF C (passed_nil _)).
   - apply (covers_equiv m kw _ (spec_apps m)); assumption.
   - destruct (cross && msg_falsy pp (request_of m kw)) eqn:F; [|now left]. right.
-    apply andb_true_iff in F as [-> F]. unfold msg_falsy in F. apply andb_true_iff in F as [-> F].
-    destruct (entries (request_of m kw)); [auto|discriminate].
+    apply andb_true_iff in F as [-> F]. auto.
 Qed.
 
 (* 4. sync and asyncio clients agree *)
@@ -1082,3 +1081,22 @@ Lemma empty_container_dotted_refuted :
     (exists r1 r2, exec (emit Sync m false true inf) RNone kw = OSend r1 /\ exec (emit Async m false true inf) RNone kw = OSend r2 /\
                    vivified "book" r1 = true /\ vivified "book" r2 = false /\ vivified "book" (request_of m kw) = true).
 Proof. eexists. split; [vm_compute; reflexivity|]. simpl. eexists. eexists. split; [vm_compute; reflexivity|]. split; [vm_compute; reflexivity|]. vm_compute. repeat split. Qed.
+
+(* a reserved field name in a request that is not a proto-plus message: get_field looks the name up with an underscore,
+   the fields dictionary of such a message has it without: KeyError at generation time *)
+Lemma reserved_in_pb2_request_refuted :
+  let input := mkMsg false [scalar "name"; scalar "type"] in
+  fields_mapping [] input true ["name"] <> None /\ fields_mapping [] input true ["name,type"] = None /\
+  fields_mapping [] (mkMsg true [scalar "name"; scalar "type"]) false ["name,type"] <> None.
+Proof. vm_compute. repeat split; discriminate. Qed.
+
+(* a cross-package proto-plus request whose set fields all hold false values is replaced by a new message: a field
+   with explicit presence set to its default is lost when the message is passed, kept when it is passed as keyword *)
+Lemma falsy_request_refuted :
+  let input := mkMsg true [mkField "level" TScalar false false false true] in
+  exists m, fields_mapping [] input true ["level"] = Some m /\
+    exec (emit Sync m true true ["level"]) RNone [("level", LS "")] = OSend (mkReq [("level", LS "")] []) /\
+    request_of m [("level", LS "")] = mkReq [("level", LS "")] [] /\
+    exec (emit Sync m true true ["level"]) (RMsg (mkReq [("level", LS "")] [])) [] = OSend empty_req /\
+    exec (emit Async m true true ["level"]) (RMsg (mkReq [("level", LS "")] [])) [] = OSend empty_req.
+Proof. eexists. split; [vm_compute; reflexivity|]. vm_compute. repeat split. Qed.
